@@ -273,6 +273,19 @@ extern "C" void harness_main() {
           }
         unsaved.erase(pid);
         lastContent[pid] = now;
+        // executing pid re-checks its children, which synchronises (saves) the sources of their OTHER parents: an unsaved
+        // user edit of such a co-parent is thereby saved and announced - a child computed without it must stop reporting done
+        std::set<PictID> savedNow;
+        for (const auto q : opsList) {
+          const auto ps = oss.Graph().ParentsOf(q);
+          if (ps[0] != pid && ps[1] != pid) continue;
+          const PictID other = ps[0] == pid ? ps[1] : ps[0];
+          if (!unsaved.count(other)) continue;
+          if (hasResult.count(q) && seenParent[q][other] != contentOf(other))
+            sym_assert(oss.Ops().StatusOf(q) != ops::Status::done, "child-not-done-after-co-parent-edit-was-saved[co-parent-edit-saved-during-sibling-execution]");
+          savedNow.insert(other);
+        }
+        for (const auto x : savedNow) unsaved.erase(x);
       }
       if (op == 3) { for (const auto q : opsList) { check(q); if (hasResult.count(q)) lastContent[q] = contentOf(q); } unsaved.clear(); sym_reach("executed-all"); }
       break;
